@@ -38,7 +38,7 @@ MetricsOK(r) ==
               /\ v.eds_status_rollout_frozen = B(fl.frozen)
          ELSE /\ v.ers_status_desired = s.desired /\ v.ers_status_current = s.current /\ v.ers_status_ready = s.ready
               /\ v.ers_status_available = s.available /\ v.ers_status_ignored_unresponsive_nodes = s.ignored
-              /\ v.ers_status_canary_failed = B(fl.failed)
+              /\ v.ers_status_canary_failed = B(fl.failed \/ r.in.cpaused = "true")
               /\ v.ers_created = 1700000000
       \* the object's own label extendeddaemonset.datadoghq.com/name=foo appears under its sanitised key with its value
       /\ \E i \in DOMAIN r.out.labelKeys : r.out.labelKeys[i] = "extendeddaemonset_datadoghq_com_name" /\ r.out.labelValues[i] = "foo"
